@@ -43,9 +43,10 @@ theorem applyOp_evs (e : EP) (op : Mux.Op) : (applyOp e op).2.2 = (opStep e op).
 /-- An application call (or local event), then the task's run to quiescence. -/
 theorem star_call (e : EP) (op : Mux.Op) (hc : isCall op = true) (hsf : SF e) (hj : J x j (applyOp e op).1) :
     Star x j (view x j e e.inbox) (view x j (applyOp e op).1 (applyOp e op).1.inbox) (wireMsgs (applyOp e op).2.2)
-      (Log.dataOf (settleLog (opStep e op).1) j) := by
-  have s1 : Sim x j e.inbox e e.inbox (opStep e op).1 (opStep e op).2.2 [] := Sim.opStep e op hc
-  have s2 := Sim.settle (x := x) (j := j) (opStep e op).1 (SF.grow (Grow.opStep e op) hsf) hj
+      (Log.dataOf (settleLog (opStep e op).1) j)
+      (xlOfWrote x (wroteBy e op (applyOp e op).2.1) ++ finsOf x j (applyOpEnds e op)) := by
+  have s1 : SimX x j e.inbox e e.inbox (opStep e op).1 (opStep e op).2.2 [] _ := SimX.opStep e op hc
+  have s2 := SimX.settle (x := x) (j := j) (opStep e op).1 (SF.grow (Grow.opStep e op) hsf) hj
   rw [opStep_call_inbox e op hc] at s2
   exact ((s1.trans s2).log rfl).evs (applyOp_evs e op)
 
@@ -53,8 +54,8 @@ theorem star_call (e : EP) (op : Mux.Op) (hc : isCall op = true) (hsf : SF e) (h
 theorem star_deliver (e : EP) (w : WsIn) (hsf : SF e) (hj : J x j (applyOp e (.deliver w)).1) :
     Star x j (view x j (opStep e (.deliver w)).1 (opStep e (.deliver w)).1.inbox)
       (view x j (applyOp e (.deliver w)).1 (applyOp e (.deliver w)).1.inbox) (wireMsgs (applyOp e (.deliver w)).2.2)
-      (Log.dataOf (settleLog (opStep e (.deliver w)).1) j) := by
-  have s2 := Sim.settle (x := x) (j := j) (opStep e (.deliver w)).1 (SF.grow (Grow.opStep e _) hsf) hj
+      (Log.dataOf (settleLog (opStep e (.deliver w)).1) j) (finsOf x j (applyOpEnds e (.deliver w))) := by
+  have s2 := SimX.settle (x := x) (j := j) (opStep e (.deliver w)).1 (SF.grow (Grow.opStep e _) hsf) hj
   have hev : (applyOp e (.deliver w)).2.2 = (settle (opStep e (.deliver w)).1).2 := by
     rw [applyOp_evs]
     have : (opStep e (.deliver w)).2.2 = [] := by
@@ -81,13 +82,13 @@ theorem view_deliver_msg (e : EP) (m : Msg) (hm : m ≠ .close) :
   rw [deaf_view]
   simp only [Mux.opStep]
   split
-  · rename_i h; simp [view, canAcc]
+  · rename_i h; simp [view, canAcc, bindHeld]
   · rename_i h
     cases m with
     | close => exact absurd rfl hm
-    | frame f => simp [view, canAcc]
-    | ping => simp [view, canAcc]
-    | pong => simp [view, canAcc]
+    | frame f => simp [view, canAcc, bindHeld]
+    | ping => simp [view, canAcc, bindHeld]
+    | pong => simp [view, canAcc, bindHeld]
 
 /-- A delivered Close: the source ends after it. -/
 theorem view_deliver_close (e : EP) :
@@ -98,8 +99,8 @@ theorem view_deliver_close (e : EP) :
   rw [deaf_view]
   simp only [Mux.opStep]
   split
-  · rename_i h; simp [view, canAcc]
-  · rename_i h; simp [view, canAcc]
+  · rename_i h; simp [view, canAcc, bindHeld]
+  · rename_i h; simp [view, canAcc, bindHeld]
 
 /-- The source ends or fails. -/
 theorem view_deliver_end (e : EP) (w : WsIn) (hw : w = .eof ∨ w = .err) :
@@ -109,8 +110,8 @@ theorem view_deliver_end (e : EP) (w : WsIn) (hw : w = .eof ∨ w = .err) :
   rw [deaf_view]
   simp only [Mux.opStep]
   split
-  · rename_i h; simp [view, canAcc]
+  · rename_i h; simp [view, canAcc, bindHeld]
   · rename_i h
-    rcases hw with rfl | rfl <;> simp [view, canAcc]
+    rcases hw with rfl | rfl <;> simp [view, canAcc, bindHeld]
 
 end Penguin.PairAll
